@@ -112,9 +112,9 @@ DRIVER = r"""
             (lp (+ i 1))))))
     ;; observe the final version, relate it to the latest live earlier version, and re-observe EVERY earlier live version
     (let* ((cur (vector-ref vs n))
-           (o (obs cur))
            (p1 (latest-live vs n 0))
            (r (if p1 (rel2 cur (vector-ref vs p1)) '-))
+           (o (obs cur))
            (old (let lp ((j n) (acc '()))       ; includes the final version again: queries must not modify it
                   (if (< j 0) acc
                       (lp (- j 1) (cons (if (vector-ref dead j) 'dead (canon (vector-ref vs j))) acc))))))
@@ -343,14 +343,15 @@ class Sets(Lib):
         for e in E4:
             A("set-adjoin %d" % e, "(set-adjoin cur %d)" % e, lambda s, c, e=e: s | {e}, lvl=0)
         for e in E4:
-            A("set-delete %d" % e, "(set-delete cur %d)" % e, lambda s, c, e=e: s - {e}, lvl=0)
+            A("set-delete %d" % e, "(set-delete cur %d)" % e, lambda s, c, e=e: s - {e}, lvl=0 if e < 3 else 1)
         for e in (1, 2):
             A("set-adjoin! %d" % e, "(set-adjoin! cur %d)" % e, lambda s, c, e=e: s | {e}, consumes=True, lvl=0 if e == 1 else 1)
             A("set-delete! %d" % e, "(set-delete! cur %d)" % e, lambda s, c, e=e: s - {e}, consumes=True, lvl=0 if e == 2 else 1)
         bins = [("set-union", lambda a, b: a | b), ("set-intersection", lambda a, b: a & b),
                 ("set-difference", lambda a, b: a - b), ("set-xor", lambda a, b: a ^ b)]
         for nm, f in bins:
-            A("%s cur prev" % nm, "(%s cur prev)" % nm, lambda s, c, f=f: None if c.prev is None else f(s, c.prev), lvl=0)
+            A("%s cur prev" % nm, "(%s cur prev)" % nm, lambda s, c, f=f: None if c.prev is None else f(s, c.prev),
+              lvl=1 if nm == "set-xor" else 0)
         for nm, f in bins:
             A("%s cur prev2" % nm, "(%s cur prev2)" % nm, lambda s, c, f=f: None if c.prev2 is None else f(s, c.prev2),
               ext=nm in ("set-intersection", "set-xor"))
@@ -423,19 +424,19 @@ class Bags(Lib):
         (bag-fold + 0 b)
         (let ((acc 0)) (bag-for-each (lambda (x) (set! acc (+ acc (* x x) 1))) b) acc)
         (asort (bag->alist b))
-        (isort (set->list (bag->set b)))
         (bag-fold-unique (lambda (e c acc) (+ acc (* (+ e 1) c))) 0 b)
         (let ((acc 0)) (bag-for-each-unique (lambda (e c) (set! acc (+ acc (* (+ e 1) c 10)))) b) acc)
         (map (lambda (e) (bag-member b e 'no)) '(0 1 2 3 4))
-        (bag? b)))
+        (bag? b)
+        (isort (set->list (bag->set b)))))       ; last: in this implementation bag->set can disturb its argument
 (define (rel2 a b)
   (olist (bag=? a b) (bag<? a b) (bag<=? a b) (bag>? a b) (bag>=? a b) (bag-disjoint? a b)))
 (define (bl b) (map (lambda (e) (bag-element-count b e)) '(0 1 2 3)))
 (define (canon b) (bl b))
 """
     qnames = ["bag-element-count", "bag-contains?", "bag-size", "bag-unique-size", "bag-empty?", "bag->list", "bag-count",
-              "bag-any?", "bag-every?", "bag-find", "bag-fold", "bag-for-each", "bag->alist", "bag->set",
-              "bag-fold-unique", "bag-for-each-unique", "bag-member", "bag?"]
+              "bag-any?", "bag-every?", "bag-find", "bag-fold", "bag-for-each", "bag->alist",
+              "bag-fold-unique", "bag-for-each-unique", "bag-member", "bag?", "bag->set"]
     rnames = ["bag=?", "bag<?", "bag<=?", "bag>?", "bag>=?", "bag-disjoint?"]
 
     def init(self):
@@ -446,9 +447,9 @@ class Bags(Lib):
         un = [e for e in range(4) if b[e]]
         return [list(b) + [0], [c > 0 for c in b] + [False], sum(b), len(un), not el, el,
                 sum(1 for e in el if e % 2), any(e % 2 for e in el), all(e % 2 for e in el),
-                2 if b[2] else "none", sum(el), sum(e * e + 1 for e in el), [[e, b[e]] for e in un], un,
+                2 if b[2] else "none", sum(el), sum(e * e + 1 for e in el), [[e, b[e]] for e in un],
                 sum((e + 1) * b[e] for e in un), sum((e + 1) * b[e] * 10 for e in un),
-                [e if b[e] else "no" for e in range(4)] + ["no"], True]
+                [e if b[e] else "no" for e in range(4)] + ["no"], True, un]
 
     def rel(self, a, b):
         le = all(x <= y for x, y in zip(a, b))
@@ -472,7 +473,7 @@ class Bags(Lib):
                 l[f(e)] += b[e]
             return tuple(l)
         for e in E4:
-            A("bag-adjoin %d" % e, "(bag-adjoin cur %d)" % e, lambda b, c, e=e: upd(b, e, lambda x: x + 1), lvl=0)
+            A("bag-adjoin %d" % e, "(bag-adjoin cur %d)" % e, lambda b, c, e=e: upd(b, e, lambda x: x + 1), lvl=0 if e < 3 else 1)
         for e in E4:
             # with two or more copies present SRFI 113 can be read as "one copy" or "all copies": not generated
             A("bag-delete %d" % e, "(bag-delete cur %d)" % e, lambda b, c, e=e: None if b[e] > 1 else upd(b, e, lambda x: 0),
@@ -486,7 +487,8 @@ class Bags(Lib):
         bins = [("bag-union", z(max)), ("bag-intersection", z(min)), ("bag-difference", z(lambda x, y: max(0, x - y))),
                 ("bag-xor", z(lambda x, y: abs(x - y))), ("bag-sum", z(lambda x, y: x + y))]
         for nm, f in bins:
-            A("%s cur prev" % nm, "(%s cur prev)" % nm, lambda s, c, f=f: None if c.prev is None else f(s, c.prev), lvl=0)
+            A("%s cur prev" % nm, "(%s cur prev)" % nm, lambda s, c, f=f: None if c.prev is None else f(s, c.prev),
+              lvl=0 if nm in ("bag-union", "bag-difference", "bag-sum") else 1)
         for nm, f in bins:
             A("%s cur prev2" % nm, "(%s cur prev2)" % nm, lambda s, c, f=f: None if c.prev2 is None else f(s, c.prev2),
               ext=nm not in ("bag-union", "bag-difference"))
@@ -647,9 +649,9 @@ class Mappings(Lib):
               lvl=0 if e < 3 else 1)
         for e in E4:
             A("mapping-adjoin %d v" % e, "(mapping-adjoin cur %d (val k %d))" % (e, e),
-              lambda m, c, e=e: m if e in dict(m) else put(m, e, V(c.k, e)), lvl=0 if e in (1, 3) else 2)
+              lambda m, c, e=e: m if e in dict(m) else put(m, e, V(c.k, e)), lvl=0 if e == 3 else (1 if e == 1 else 2))
         for e in E4:
-            A("mapping-delete %d" % e, "(mapping-delete cur %d)" % e, lambda m, c, e=e: rem(m, {e}), lvl=0)
+            A("mapping-delete %d" % e, "(mapping-delete cur %d)" % e, lambda m, c, e=e: rem(m, {e}), lvl=0 if e < 3 else 1)
         A("mapping-replace 2 v", "(mapping-replace cur 2 (val k 2))", lambda m, c: put(m, 2, V(c.k, 2)) if 2 in dict(m) else m, lvl=2)
         A("mapping-update/default 0 +1 100", "(mapping-update/default cur 0 (lambda (x) (+ x 1)) 100)",
           lambda m, c: put(m, 0, dict(m).get(0, 100) + 1), lvl=0)
@@ -669,7 +671,8 @@ class Mappings(Lib):
                 ("mapping-xor", lambda a, b: _mt(dict([(k, v) for k, v in a if k not in dict(b)] +
                                                       [(k, v) for k, v in b if k not in dict(a)])))]
         for nm, f in bins:
-            A("%s cur prev" % nm, "(%s cur prev)" % nm, lambda s, c, f=f: None if c.prev is None else f(s, c.prev), lvl=0)
+            A("%s cur prev" % nm, "(%s cur prev)" % nm, lambda s, c, f=f: None if c.prev is None else f(s, c.prev),
+              lvl=1 if nm == "mapping-xor" else 0)
         for nm, f in bins:
             A("%s cur prev2" % nm, "(%s cur prev2)" % nm, lambda s, c, f=f: None if c.prev2 is None else f(s, c.prev2),
               lvl=2)
